@@ -603,7 +603,9 @@ pub fn parse_number<'a, const FORMAT: u128, const IS_PARTIAL: bool>(
     // Check if integer leading zeros are disabled.
     #[cfg(feature = "format")]
     if !is_prefix && format.no_float_leading_zeros() {
-        if integer_digits.len() > 1 && integer_digits.first() == Some(&b'0') {
+        // NOTE: Digit separators are not digits, so check the number of
+        // digits and the first digit, not the raw bytes of the component.
+        if n_digits > 1 && start.clone().integer_iter().peek() == Some(&b'0') {
             return Err(Error::InvalidLeadingZeros(start.cursor()));
         }
     }
